@@ -1137,6 +1137,26 @@ func main() {
 		})
 	}
 
+	// ---- A5: containers that come out of the parser and are extended with sets
+	nsap := r.Pick(20000, 400000)
+	for i := 0; i < nsap; i += 500 {
+		add(func(c *ctx) {
+			for j := 0; j < 500; j++ {
+				c.caseNo++
+				ops := genSequence(c.rnd)
+				k := c.rnd.Intn(len(ops) + 1)
+				pre, post := ops[:k], ops[k:]
+				if len(pre) > 0 && c.rnd.Intn(2) == 0 {
+					// the first set continues the tag of the last parsed item, with lengths around what is left to 255
+					last := pre[len(pre)-1]
+					n := []int{1, 2, 255 - len(last.Val)%255, 256 - len(last.Val)%255, 254, 255, 256, 300, 600}[c.rnd.Intn(9)]
+					post = append([]op{mkOp(c.rnd, "SetBytes", last.Tag, n)}, post...)
+				}
+				c.runSetAfterParse(pre, post)
+			}
+		})
+	}
+
 	// ---- B0: every input of 0, 1 and 2 bytes (thorough: also every 3-byte input whose length byte is 0, 1 or 2)
 	add(func(c *ctx) {
 		c.runParse([]byte{}, "exhaustive-up-to-2-bytes")
@@ -1245,6 +1265,8 @@ func main() {
 	r.Floor("sets_exact_multiple_of_255", int(r.Counter("sets_exact_multiple_of_255")), 500)
 	r.Floor("containers_with_repeated_tag", int(r.Counter("containers_with_repeated_tag")), 1000)
 	r.Floor("sequence features", r.DistinctN("sequence_feature"), 7)
+	r.Floor("containers_extended_after_parsing_ok+violations", int(r.Counter("containers_extended_after_parsing_ok"))+1000*r.ViolationCount(), nsap*8/10)
+	r.Floor("sets_after_parsing_on_the_tag_of_the_last_parsed_item", int(r.Counter("sets_after_parsing_on_the_tag_of_the_last_parsed_item")), nsap/4)
 	r.Floor("serialisations_between_sets", int(r.Counter("serialisations_between_sets")), 10000)
 	r.Floor("very_long_value_cases", int(r.Counter("very_long_value_cases")), len(rounds)*8)
 	r.Floor("parser_inputs", int(r.Counter("parser_inputs")), r.Pick(100000, 1000000))
@@ -1268,4 +1290,87 @@ func (c *ctx) hung(sig, what string, witness func() interface{}) {
 		c.flush()
 		c.r.Finish()
 	}
+}
+
+// runSetAfterParse: a container that came out of the PARSER is extended with set calls (a received message that is
+// completed and sent on) and serialised.  The per-tag model is the parsed values followed by the set values; the
+// reference parser must find exactly that in hc's serialisation, and hc's own re-parse must agree.
+func (c *ctx) runSetAfterParse(pre, post []op) {
+	c.evals++
+	c.count("containers_extended_after_parsing", 1)
+	enc := refEncode(c.rnd, pre, c.caseNo%3)
+	var model [256][]byte
+	for _, o := range pre {
+		model[o.Tag] = append(model[o.Tag], o.Val...)
+	}
+	var wire []byte
+	witness := func() interface{} {
+		w := map[string]interface{}{"origin": "set-after-parse", "parsed_input_hex": hexFull(enc), "parsed_values": opsWitness(pre), "sets_after_parsing": opsWitness(post)}
+		if wire != nil {
+			w["hc_BytesBuffer_hex"] = hexFull(wire)
+		}
+		return w
+	}
+	var cont util.Container
+	var err error
+	if p, text := vf.Recover(func() { cont, err = util.NewTLV8ContainerFromReader(bytes.NewReader(enc)) }); p {
+		c.violate("parse:panic:"+vf.PanicSite(text, hcFragment), "NewTLV8ContainerFromReader panicked: "+firstLine(text), witness)
+		return
+	}
+	if err != nil || cont == nil {
+		c.count("set_after_parse_input_rejected", 1)
+		return
+	}
+	for i, o := range post {
+		o := o
+		if p, text := vf.Recover(func() {
+			switch o.Kind {
+			case "SetByte":
+				cont.SetByte(o.Tag, o.Val[0])
+			case "SetBytes":
+				arg := append(make([]byte, 0, len(o.Val)+7), o.Val...)
+				cont.SetBytes(o.Tag, arg)
+				for k := range arg {
+					arg[k] = ^arg[k]
+				}
+			case "SetString":
+				cont.SetString(o.Tag, string(o.Val))
+			}
+		}); p {
+			c.violate("set-after-parse:panic:"+vf.PanicSite(text, hcFragment), fmt.Sprintf("%s(tag %d, %d bytes) (set #%d after parsing) panicked: %s", o.Kind, o.Tag, len(o.Val), i, firstLine(text)), witness)
+			return
+		}
+		model[o.Tag] = append(model[o.Tag], o.Val...)
+		c.count("sets_after_parsing", 1)
+		if len(pre) > 0 && o.Tag == pre[len(pre)-1].Tag {
+			c.count("sets_after_parsing_on_the_tag_of_the_last_parsed_item", 1)
+		}
+	}
+	var buf *bytes.Buffer
+	if p, text := vf.Recover(func() { buf = cont.BytesBuffer() }); p || buf == nil {
+		c.violate("set-after-parse:serialise:panic-or-nil", "BytesBuffer of a parsed and extended container panicked or returned nil: "+firstLine(text), witness)
+		return
+	}
+	wire = append([]byte{}, buf.Bytes()...)
+	tlv, perr := refctl.ParseTLV(wire)
+	if perr != nil {
+		c.violate("set-after-parse:reference-parser-rejects", fmt.Sprintf("the reference TLV8 parser rejects the serialisation of a parsed and extended container: %v", perr), witness)
+		return
+	}
+	var perTag [256][]byte
+	for _, it := range tlv.Raw {
+		perTag[it.Tag] = append(perTag[it.Tag], it.Val...)
+	}
+	for t := 0; t < 256; t++ {
+		if !bytes.Equal(perTag[t], model[t]) {
+			c.violate("set-after-parse:reference-parse-differs:"+diffKind(perTag[t], model[t]),
+				fmt.Sprintf("parsed %d values, then %d sets: the reference parser finds %d bytes for tag %d in hc's serialisation, the parsed input and the sets hold %d (%s)", len(pre), len(post), len(perTag[t]), t, len(model[t]), diffKind(perTag[t], model[t])), witness)
+			return
+		}
+		if got := cont.GetBytes(uint8(t)); !bytes.Equal(got, model[t]) && !(len(got) == 0 && len(model[t]) == 0) {
+			c.violate("set-after-parse:get-differs:"+diffKind(got, model[t]), fmt.Sprintf("GetBytes(%d) of a parsed and extended container returns %d bytes, expected %d", t, len(got), len(model[t])), witness)
+			return
+		}
+	}
+	c.count("containers_extended_after_parsing_ok", 1)
 }
